@@ -109,4 +109,157 @@ theorem decLenBytes_too_long (n : Nat) (rest : Bytes) (hn : n < U64) (h : rest.l
   rw [decNat_enc 8 n rest (by simpa using hn)]
   exact takeN_none_of_lt h
 
+/-! ### numbers -/
+
+theorem modulus_eq (t : NumTy) : t.modulus = 256 ^ t.bytes := by cases t <;> rfl
+
+theorem numRepr_lt (t : NumTy) (n : Int) : numRepr t n < 256 ^ t.bytes := by
+  rw [← modulus_eq]
+  cases t <;> simp only [numRepr, NumTy.modulus] <;> omega
+
+theorem numOfRepr_numRepr {t : NumTy} {n : Int} (h : numInRange t n = true) :
+    numOfRepr t (numRepr t n) = n := by
+  cases t <;>
+    simp only [numInRange, numOfRepr, numRepr, NumTy.modulus, NumTy.signed, decide_eq_true_eq, true_and, false_and,
+      Bool.false_eq_true, ↓reduceIte] at h ⊢ <;> (try split) <;> omega
+
+theorem numRepr_numOfRepr {t : NumTy} {u : Nat} (h : u < 256 ^ t.bytes) :
+    numRepr t (numOfRepr t u) = u ∧ numInRange t (numOfRepr t u) = true := by
+  rw [← modulus_eq] at h
+  cases t <;>
+    simp only [numInRange, numOfRepr, numRepr, NumTy.modulus, NumTy.signed, decide_eq_true_eq, true_and, false_and,
+      Bool.false_eq_true, ↓reduceIte] at h ⊢ <;> (try split) <;> omega
+
+theorem decNum_enc (t : NumTy) (n : Int) (rest : Bytes) (h : numInRange t n = true) :
+    decNum t (encNum t n ++ rest) = some (.num t n, rest) := by
+  simp only [decNum, encNum]
+  rw [decNat_enc _ _ _ (numRepr_lt t n)]
+  simp only [numOfRepr_numRepr h]
+
+theorem decNum_some {t : NumTy} {bs rest : Bytes} {v : Value} (e : decNum t bs = some (v, rest)) :
+    ∃ n, v = .num t n ∧ numInRange t n = true ∧ encNum t n ++ rest = bs := by
+  unfold decNum at e
+  split at e
+  · rename_i u r hu
+    simp only [Option.some.injEq, Prod.mk.injEq] at e
+    obtain ⟨rfl, rfl⟩ := e
+    obtain ⟨h1, h2⟩ := decNat_some hu
+    obtain ⟨h3, h4⟩ := numRepr_numOfRepr h2
+    exact ⟨_, rfl, h4, by simp only [encNum, h3, h1]⟩
+  · cases e
+
+/-! ### char -/
+
+theorem decChar_enc (c : Nat) (rest : Bytes) (h : isScalar c = true) :
+    decChar (encChar c ++ rest) = some (.char c, rest) := by
+  simp only [isScalar, Bool.or_eq_true, Bool.and_eq_true, decide_eq_true_eq] at h
+  unfold encChar
+  split
+  · have e : (UInt8.ofNat c).toNat = c := toNat_ofNat_lt (by omega)
+    simp only [List.cons_append, List.nil_append, decChar, e]
+    simp [*]
+  split
+  · have e0 : (UInt8.ofNat (0xC0 + c / 64)).toNat = 0xC0 + c / 64 := toNat_ofNat_lt (by omega)
+    have e1 : (UInt8.ofNat (0x80 + c % 64)).toNat = 0x80 + c % 64 := toNat_ofNat_lt (by omega)
+    simp only [List.cons_append, List.nil_append, decChar, e0, e1, isCont, Bool.and_eq_true, decide_eq_true_eq]
+    repeat' (first | omega | split)
+    simp only [Option.some.injEq, Prod.mk.injEq, Value.char.injEq, and_true]; omega
+  split
+  · have e0 : (UInt8.ofNat (0xE0 + c / 4096)).toNat = 0xE0 + c / 4096 := toNat_ofNat_lt (by omega)
+    have e1 : (UInt8.ofNat (0x80 + c / 64 % 64)).toNat = 0x80 + c / 64 % 64 := toNat_ofNat_lt (by omega)
+    have e2 : (UInt8.ofNat (0x80 + c % 64)).toNat = 0x80 + c % 64 := toNat_ofNat_lt (by omega)
+    simp only [List.cons_append, List.nil_append, decChar, e0, e1, e2, isCont, isScalar, Bool.and_eq_true,
+      Bool.or_eq_true, decide_eq_true_eq]
+    repeat' (first | omega | split)
+    simp only [Option.some.injEq, Prod.mk.injEq, Value.char.injEq, and_true]; omega
+  · have e0 : (UInt8.ofNat (0xF0 + c / 262144)).toNat = 0xF0 + c / 262144 := toNat_ofNat_lt (by omega)
+    have e1 : (UInt8.ofNat (0x80 + c / 4096 % 64)).toNat = 0x80 + c / 4096 % 64 := toNat_ofNat_lt (by omega)
+    have e2 : (UInt8.ofNat (0x80 + c / 64 % 64)).toNat = 0x80 + c / 64 % 64 := toNat_ofNat_lt (by omega)
+    have e3 : (UInt8.ofNat (0x80 + c % 64)).toNat = 0x80 + c % 64 := toNat_ofNat_lt (by omega)
+    simp only [List.cons_append, List.nil_append, decChar, e0, e1, e2, e3, isCont, Bool.and_eq_true, decide_eq_true_eq]
+    repeat' (first | omega | split)
+    simp only [Option.some.injEq, Prod.mk.injEq, Value.char.injEq, and_true]; omega
+
+theorem ofNat_eq_of_toNat {b : UInt8} {n : Nat} (h : n = b.toNat) : UInt8.ofNat n = b := by
+  subst h; exact UInt8.ofNat_toNat
+
+theorem decChar_some {bs rest : Bytes} {v : Value} (e : decChar bs = some (v, rest)) :
+    ∃ c, v = .char c ∧ isScalar c = true ∧ encChar c ++ rest = bs := by
+  unfold decChar at e
+  split at e
+  · cases e
+  rename_i b0 r
+  have hb0 := byte_lt b0
+  simp only at e
+  split at e
+  · -- one byte
+    simp only [Option.some.injEq, Prod.mk.injEq] at e
+    obtain ⟨rfl, rfl⟩ := e
+    refine ⟨b0.toNat, rfl, ?_, ?_⟩
+    · simp only [isScalar, Bool.or_eq_true, Bool.and_eq_true, decide_eq_true_eq]; omega
+    · unfold encChar; rw [if_pos (by assumption)]
+      simp [UInt8.ofNat_toNat]
+  split at e
+  · cases e
+  split at e
+  · -- two bytes
+    split at e
+    · rename_i b1 r
+      have hb1 := byte_lt b1
+      split at e
+      · rename_i hc
+        simp only [isCont, Bool.and_eq_true, decide_eq_true_eq] at hc
+        simp only [Option.some.injEq, Prod.mk.injEq] at e
+        obtain ⟨rfl, rfl⟩ := e
+        refine ⟨_, rfl, ?_, ?_⟩
+        · simp only [isScalar, Bool.or_eq_true, Bool.and_eq_true, decide_eq_true_eq]; omega
+        · unfold encChar
+          rw [if_neg (by omega), if_pos (by omega)]
+          rw [ofNat_eq_of_toNat (b := b0) (by omega), ofNat_eq_of_toNat (b := b1) (by omega)]
+          rfl
+      · cases e
+    · cases e
+  split at e
+  · -- three bytes
+    split at e
+    · rename_i b1 b2 r
+      have hb1 := byte_lt b1
+      have hb2 := byte_lt b2
+      split at e
+      · rename_i hc
+        simp only [isCont, isScalar, Bool.and_eq_true, Bool.or_eq_true, decide_eq_true_eq] at hc
+        simp only [Option.some.injEq, Prod.mk.injEq] at e
+        obtain ⟨rfl, rfl⟩ := e
+        refine ⟨_, rfl, ?_, ?_⟩
+        · simp only [isScalar, Bool.or_eq_true, Bool.and_eq_true, decide_eq_true_eq]; omega
+        · unfold encChar
+          rw [if_neg (by omega), if_neg (by omega), if_pos (by omega)]
+          rw [ofNat_eq_of_toNat (b := b0) (by omega), ofNat_eq_of_toNat (b := b1) (by omega),
+            ofNat_eq_of_toNat (b := b2) (by omega)]
+          rfl
+      · cases e
+    · cases e
+  split at e
+  · -- four bytes
+    split at e
+    · rename_i b1 b2 b3 r
+      have hb1 := byte_lt b1
+      have hb2 := byte_lt b2
+      have hb3 := byte_lt b3
+      split at e
+      · rename_i hc
+        simp only [isCont, Bool.and_eq_true, decide_eq_true_eq] at hc
+        simp only [Option.some.injEq, Prod.mk.injEq] at e
+        obtain ⟨rfl, rfl⟩ := e
+        refine ⟨_, rfl, ?_, ?_⟩
+        · simp only [isScalar, Bool.or_eq_true, Bool.and_eq_true, decide_eq_true_eq]; omega
+        · unfold encChar
+          rw [if_neg (by omega), if_neg (by omega), if_neg (by omega)]
+          rw [ofNat_eq_of_toNat (b := b0) (by omega), ofNat_eq_of_toNat (b := b1) (by omega),
+            ofNat_eq_of_toNat (b := b2) (by omega), ofNat_eq_of_toNat (b := b3) (by omega)]
+          rfl
+      · cases e
+    · cases e
+  · cases e
+
 end Lemmas.Bincode
